@@ -429,12 +429,53 @@ func checkManifest1(run *core.Run, m manifest) {
 	run.NonTrivial(m.Text)
 }
 
+func mapStr(xs []string, f func(string) string) []string {
+	out := make([]string, len(xs))
+	for i, x := range xs {
+		out[i] = f(x)
+	}
+	return out
+}
+
+func checkAliasManifest(run *core.Run, text string, ws []string) {
+	c := &core.Case{Kind: "alias", Text: text, Strs: ws}
+	run.Guard(c, func() {
+		mf, err := transformer.TransformModFile(text)
+		run.Eval(1)
+		run.Count("alias_manifests", 1)
+		if err != nil {
+			run.Count("alias_manifests_rejected", 1)
+			return
+		}
+		run.Count("alias_manifests_accepted", 1)
+		if mf.Schema.Value != "1.2" {
+			run.Violation("accepted-schema-not-1.2", c, "1.2", mf.Schema.Value)
+		}
+		if len(mf.Contents.Value) != len(ws) {
+			run.Violation("entries-behind-an-alias-lost-or-invented", c, fmt.Sprintf("rejected, or the %d entries", len(ws)), fmt.Sprintf("accepted with %d paths", len(mf.Contents.Value)))
+			return
+		}
+		for k, it := range mf.Contents.Value {
+			if why := unsafeReason(it.Value); why != "" {
+				run.Violation("unsafe-path-returned:"+why, c, "safe relative .fga path", fmt.Sprintf("%q (written %q)", it.Value, ws[k]))
+			}
+			if classifyEntry(ws[k]) == "reject" {
+				run.Violation("offending-entry-accepted-or-filtered", c, "rejected", fmt.Sprintf("%q accepted as %q", ws[k], it.Value))
+			}
+			if !strings.ContainsAny(ws[k], "%+\\") && it.Value != ws[k] {
+				run.Violation("path-not-verbatim-or-out-of-order", c, ws[k], it.Value)
+			}
+		}
+		run.NonTrivial(text)
+	})
+}
+
 func runC15(run *core.Run) {
 	maxLen := 5
 	if run.Tier == "thorough" {
 		maxLen = 6
 	}
-	run.Rule = fmt.Sprintf("(a) exhaustive: every string over the 15-letter alphabet {. / \\ %% 2 5 e E f F c C + a g} up to length %d, with and without the .fga suffix, as the single entry of a manifest (double- or single-quoted carrier); (b) random multi-entry manifests mixing enumerated and longer hostile paths with non-string nodes and aliases, in block and flow sequences, plain/quoted/literal/folded scalars, tags, anchors, comments, document markers, non-ASCII; oracle R4: safety predicate on every returned path, must-accept / must-reject classes from an own percent decoder, error count within [must-reject, must-reject+undetermined], verbatim and order, writer-recorded positions; non-trivial = accepted manifest or manifest with >=1 must-reject entry; distinct by text", maxLen)
+	run.Rule = fmt.Sprintf("(a) exhaustive: every string over the 15-letter alphabet {. / \\ %% 2 5 e E f F c C + a g} up to length %d, with and without the .fga suffix, as the single entry of a manifest (double- or single-quoted carrier); (b) random multi-entry manifests mixing enumerated and longer hostile paths with non-string nodes and aliases, in block and flow sequences, plain/quoted/literal/folded scalars, tags, anchors, comments, document markers, non-ASCII; oracle R4: safety predicate on every returned path, must-accept / must-reject classes from an own percent decoder, error count within [must-reject, must-reject+undetermined], verbatim and order, writer-recorded positions; (c) manifests whose schema / contents / entry is an alias of a node anchored under another key or arrives through a merge key: rejected, or accepted with exactly the entries behind the alias, never fewer; non-trivial = accepted manifest or manifest with >=1 must-reject entry; distinct by text", maxLen)
 	// (a) exhaustive
 	total := 1
 	pw := 1
@@ -500,6 +541,42 @@ func runC15(run *core.Run) {
 		checkManifest(run, m)
 		run.SampleAt(i, n/3+1, func() any { return m.Text })
 	})
+	// (c) properties whose value is an alias of a node anchored under another key (also through a merge key):
+	// either answer is fine - rejected, or accepted with exactly the entries behind the alias - but nothing may be
+	// dropped, and an offending entry behind an alias is still offending
+	na := run.N(6000, 80000)
+	core.Parallel(na, func(i int) {
+		r := run.Rng("c15-alias", i)
+		var ws []string
+		for k := 1 + r.Intn(3); k > 0; k-- {
+			ws = append(ws, names[r.Intn(len(names))])
+		}
+		list := func(ind string) string {
+			var sb strings.Builder
+			for _, w := range ws {
+				sb.WriteString(ind + "- " + dq(w) + "\n")
+			}
+			return sb.String()
+		}
+		var text string
+		switch r.Intn(6) {
+		case 0:
+			text = "files: &f\n" + list("  ") + "schema: '1.2'\ncontents: *f\n"
+		case 1:
+			text = "files: &f [" + strings.Join(mapStr(ws, dq), ", ") + "]\nschema: '1.2'\ncontents: *f\n"
+		case 2:
+			text = "ver: &v '1.2'\nschema: *v\ncontents:\n" + list("  ")
+		case 3:
+			text = "e: &e " + dq(ws[0]) + "\nschema: '1.2'\ncontents:\n  - *e\n" + list("  ")
+			ws = append([]string{ws[0]}, ws...)
+		case 4:
+			text = "base: &b\n  contents:\n" + list("    ") + "<<: *b\nschema: '1.2'\n"
+		case 5:
+			text = "schema: &v '1.2'\ncontents: &f\n" + list("  ") + "again: *f\nver: *v\n"
+		}
+		checkAliasManifest(run, text, ws)
+		run.SampleAt(i, na/2+1, func() any { return text })
+	})
 	// schema rules
 	for _, s := range []string{"schema: 1.2\ncontents:\n  - a.fga\n", "schema: '1.1'\ncontents:\n  - a.fga\n", "contents:\n  - a.fga\n", "schema: '1.2'\n", "schema: '1.2'\ncontents: a.fga\n", "schema: [1.2]\ncontents:\n  - a.fga\n", "schema: ' 1.2'\ncontents:\n  - a.fga\n", "schema: \"1.2\\n\"\ncontents:\n  - a.fga\n"} {
 		mf, err := transformer.TransformModFile(s)
@@ -511,6 +588,10 @@ func runC15(run *core.Run) {
 }
 
 func replayC15(run *core.Run, c *core.Case) {
+	if c.Kind == "alias" {
+		checkAliasManifest(run, c.Text, c.Strs)
+		return
+	}
 	if c.Kind == "raw" {
 		_, err := transformer.TransformModFile(c.Text)
 		if err == nil {
